@@ -48,6 +48,14 @@ def endings():
     E.append(('stream-cancel-in-on_subscribe', dict(kind='stream', down=2, pub='gen', cancel_after=-1, ending='flag')))
     E.append(('channel-cancel-in-on_subscribe', dict(kind='channel', down=2, up=-1, pub='gen', cancel_after=-1, ending='flag')))
     E.append(('channel-raise', dict(kind='channel', down=1, up=1, pub='raise')))
+    # an application publisher that emits synchronously from inside request(n)
+    for ending in ('flag', 'complete'):
+        E.append(('stream-sync-%s' % ending, dict(kind='stream', down=3, pub='sync', ending=ending, credit='one')))
+        E.append(('stream-sync-%s-max' % ending, dict(kind='stream', down=3, pub='sync', ending=ending, credit='max')))
+        E.append(('channel-sync-%s' % ending, dict(kind='channel', down=2, up=2, pub='sync', ending=ending, up_ending=ending, credit='one')))
+    E.append(('stream-sync-empty', dict(kind='stream', down=0, pub='sync', ending='complete')))
+    E.append(('stream-sync-cancel1', dict(kind='stream', down=3, pub='sync', cancel_after=1, credit='one', ending='flag')))
+    E.append(('channel-sync-max', dict(kind='channel', down=3, up=3, pub='sync', ending='flag', up_ending='flag', credit='max')))
     # the rest of the credit granted from inside on_subscribe
     E.append(('stream-gen-credit-in-on_subscribe', dict(kind='stream', down=3, pub='gen', credit='onsub', ending='flag')))
     E.append(('stream-manual-credit-in-on_subscribe', dict(kind='stream', down=2, pub='manual', credit='onsub')))
